@@ -29,11 +29,19 @@ def gen_cases(ctx):
     strings = list(gens.shortlex(ALPHA, maxlen))
     n_rand = 1500 if ctx.quick else 40000
     strings += [gens.rand_string(rng, 14) for _ in range(n_rand)]
+    # long texts, with a character that needs escaping at or next to typical length limits (round 14: comments clipped
+    # after escaping)
+    longs = []
+    for L in (255, 256, 1023, 1024, 1025, 2047, 2048, 2049, 4100):
+        for c in ("'", "\\", "\u00e9", "a"):
+            longs.append("a" * (L - 1) + c)
+            longs.append("a" * (L - 2) + c + "b")
+    strings += longs if not ctx.quick else rng.sample(longs, 24)
     for s in strings:
         for b in B:
             ps = positions_for(b, "s")
             # every position for short strings, one random position for the others
-            use = ps if len(s) <= 1 else [rng.choice(ps)]
+            use = ps if (len(s) <= 1 or len(s) > 200) else [rng.choice(ps)]
             for p in use:
                 lines.append("lit %s %s s %s" % (b, p, hexs(s)))
     # multi-label positions
